@@ -27,6 +27,37 @@ Qed.
 Lemma wrap_u8_N a : wrap (IU 8) (Z.of_N a) = Z.of_N (u8 a).
 Proof. unfold wrap, u8. rewrite N2Z.inj_mod. reflexivity. Qed.
 
+Lemma lor128 a : Z.lor 128 (Z.of_N a) = Z.of_N (N.lor 128 a).
+Proof. exact (ZofN_lor 128 a). Qed.
+Lemma shl4 a : Z.shiftl (Z.of_N a) 4 = Z.of_N (N.shiftl a 4).
+Proof. exact (ZofN_shiftl a 4). Qed.
+Lemma land15 a : Z.land (Z.of_N a) 15 = Z.of_N (N.land a 15).
+Proof. exact (ZofN_land a 15). Qed.
+Lemma land127 a : Z.land (Z.of_N a) 127 = Z.of_N (N.land a 127).
+Proof. exact (ZofN_land a 127). Qed.
+
+Ltac to_N :=
+  repeat first [ rewrite wrap_u8_N | rewrite shl4 | rewrite ZofN_shiftr | rewrite lor128
+               | rewrite land15 | rewrite land127 | rewrite ZofN_lor | rewrite N2Z.id ].
+
+Lemma skipn1_skipn {A} (l : list A) : forall i, skipn 1 (skipn i l) = skipn (S i) l.
+Proof.
+  induction l as [|a l IH]; intros i.
+  - destruct i; reflexivity.
+  - destruct i as [|i]; [reflexivity|]. cbn [skipn]. apply IH.
+Qed.
+
+(** writing position i of a buffer whose first i bytes [L] are already written *)
+Lemma upd_written (L g : bytes) (x : N) i :
+  length L = i -> (i < length g)%nat ->
+  firstn i (L ++ skipn i g) ++ x :: skipn (S i) (L ++ skipn i g) = (L ++ [x]) ++ skipn (S i) g.
+Proof.
+  intros HL Hi.
+  rewrite firstn_app, firstn_all2 by lia. rewrite HL, Nat.sub_diag. cbn [firstn]. rewrite app_nil_r.
+  rewrite skipn_app, skipn_all2 by lia. rewrite HL. replace (S i - i)%nat with 1%nat by lia.
+  rewrite skipn1_skipn. cbn [app]. rewrite <- app_assoc. reflexivity.
+Qed.
+
 (** * the continuation bytes *)
 Definition xbyte (u : N) (t : nat) : N := N.lor 128 (u8 (N.shiftr u (4 + 7 * N.of_nat t))).
 
@@ -46,11 +77,11 @@ Proof.
 Qed.
 
 (** numBytes as the Go code computes it (with its wraps) *)
-Definition go_nb (bits : N) : Z :=
-  let d := wrap (IS 64) (Z.of_N bits - 4) in
-  let nb0 := wrap (IS 64) (wrap (IS 64) (Z.quot d 7) + 1) in
-  let nb1 := if 0 <? Z.rem d 7 then wrap (IS 64) (nb0 + 1) else nb0 in
-  if nb1 =? 1 then 2 else nb1.
+Definition go_nb0 (bits : N) : Z :=
+  wrap (IS 64) (wrap (IS 64) (Z.quot (Z.of_N bits - 4) 7) + 1).
+Definition go_nb1 (bits : N) : Z :=
+  if 0 <? Z.rem (Z.of_N bits - 4) 7 then wrap (IS 64) (go_nb0 bits + 1) else go_nb0 bits.
+Definition go_nb (bits : N) : Z := if go_nb1 bits =? 1 then 2 else go_nb1 bits.
 
 Lemma go_nb_ok bits : (bits <= 64)%N ->
   go_nb bits = Z.of_nat (num_bytes bits) /\ (2 <= num_bytes bits <= 10)%nat.
@@ -73,6 +104,66 @@ Proof.
   pose proof (size_le_64 u Hu) as Hbits.
   destruct (go_nb_ok (N.size u) Hbits) as [Hnb Hnbr].
   start_func go_encodeObjTypeAndLen.
+  straight. unfold GoLang.len64. rewrite !N2Z.id.
+  set (bits := N.size u) in *. set (nb := num_bytes bits) in *.
+  rewrite ?(wrap_s64 (Z.of_N bits - 4)) by lia. fold (go_nb0 bits).
+  (* if (bits-4)%7 > 0 { numBytes += 1 } *)
+  eapply (wp_seq_cut _ _ _ _
+            [VStr g; VInt (Z.of_N ty); VInt (Z.of_N u); VInt (Z.of_N bits); VInt (go_nb1 bits); VUnset; VUnset]).
+  { stepn. rewrite ?(wrap_s64 (Z.of_N bits - 4)) by lia. unfold go_nb1. split_if as Hc; stepsn; reflexivity. }
+  (* if numBytes == 1 { numBytes = 2 } *)
+  eapply (wp_seq_cut _ _ _ _
+            [VStr g; VInt (Z.of_N ty); VInt (Z.of_N u); VInt (Z.of_N bits); VInt (Z.of_nat nb); VUnset; VUnset]).
+  { stepn. rewrite <- Hnb. unfold go_nb. split_if as Hc; stepsn; reflexivity. }
+  (* b := buf.Buffer(numBytes) *)
+  straight. change (Z.to_nat 0) with O. rewrite Nat.sub_0_r. cbn [skipn].
+  set (g' := firstn nb g). assert (Hg' : length g' = nb) by (apply firstn_length_le; lia). clearbody g'.
+  stepn. stepn. to_N. fold (byte0_sm ty u).
+  change (Z.to_nat 0) with O. cbn [firstn app].
   straight.
-  Show.
-Abort.
+  (* for i := 1; i < numBytes; i++ *)
+  stepn. stepn. stepn.
+  eapply (wp_for_inv _ _ _ _ _ _
+            (fun e => exists j,
+               e = [VStr g; VInt (Z.of_N ty); VInt (Z.of_N u); VInt (Z.of_N (4 + 7 * N.of_nat j));
+                    VInt (Z.of_nat nb);
+                    VStr ((byte0_sm ty u :: map (xbyte u) (seq 0 j)) ++ skipn (S j) g');
+                    VInt (Z.of_nat (S j))]
+               /\ (S j <= nb)%nat)
+            (fun e => match nth 6 e VUnset with
+                      | VInt i => Z.to_nat (Z.of_nat nb - i)
+                      | _ => O
+                      end)).
+  { exists O. split; [reflexivity|lia]. }
+  intros e (j & -> & Hj).
+  eexists; split; [evn; reflexivity|].
+  remember (byte0_sm ty u :: map (xbyte u) (seq 0 j)) as L eqn:EL.
+  assert (HL : length L = S j) by (subst L; cbn [length]; now rewrite map_length, seq_length).
+  destruct (Z.ltb_spec (Z.of_nat (S j)) (Z.of_nat nb)) as [Hlt|Hge].
+  - (* one more continuation byte *)
+    stepn. stepn. to_N. fold (xbyte u j).
+    rewrite upd_written by lia.
+    stepn. stepn. unwrap.
+    split; [|lia]. exists (S j). split; [|lia].
+    subst L. rewrite seq_S, map_app. cbn [map app Nat.add].
+    repeat f_equal; try lia.
+  - (* b[numBytes-1] &= 127; return b *)
+    assert (Ej : S j = nb) by lia.
+    rewrite skipn_all2, app_nil_r by lia.
+    stepn. stepn. stepn. to_N.
+    replace (Z.to_nat (Z.of_nat nb - 1)) with j by lia.
+    do 3 f_equal.
+    unfold encode_len, encode_len_sm, CodecPackfile.len64. fold bits. fold nb.
+    replace (nb - 1)%nat with j by lia.
+    destruct j as [|k]; [lia|].
+    change (cont_sm (S k) u 4) with (cont_sm (S k) u (4 + 7 * N.of_nat 0)). rewrite cont_sm_raw.
+    subst L. rewrite seq_S, map_app. cbn [map app Nat.add].
+    set (M := map (xbyte u) (seq 0 k)).
+    assert (HM : length M = k) by (unfold M; now rewrite map_length, seq_length).
+    cbn [firstn nth].
+    change (skipn (S (S k)) (byte0_sm ty u :: M ++ [xbyte u k])) with (skipn (S k) (M ++ [xbyte u k])).
+    rewrite firstn_app, firstn_all2 by lia. rewrite HM, Nat.sub_diag. cbn [firstn]. rewrite app_nil_r.
+    rewrite app_nth2 by lia. rewrite HM, Nat.sub_diag. cbn [nth].
+    rewrite skipn_all2 by (rewrite app_length; cbn [length]; lia).
+    cbn [app]. reflexivity.
+Qed.
